@@ -52,7 +52,17 @@ func VerifC14Single() {
 	c14NSigs = verifChoice("signatures", 2)
 	DisableHashVerification = verifChoice("disableHashVerification", 2) == 1
 	defer func() { DisableHashVerification = false }()
-	data := verifBytes("data", verifChoice("len", 1+verifParam("maxLen", 3)))
+	nl := 1 + verifParam("maxLen", 3)
+	var data []byte
+	if l := verifChoice("len", nl+2); l < nl {
+		data = verifBytes("data", l)
+	} else {
+		// the largest transaction (1232 bytes) and a 64 KiB frame, concrete position-dependent bytes
+		data = make([]byte, []int{1232, 65536}[l-nl])
+		for j := range data {
+			data[j] = byte(3*j + 1 + j/251)
+		}
+	}
 	tx := Transaction{Kind: 0, Slot: 9}
 	tx.Data = DataFrame{Kind: 6, Data: Buffer(append([]byte{}, data...))}
 	hasHash := verifChoice("checksum", 2) == 1
